@@ -67,21 +67,21 @@ Example submillisecond_ids_now_holds :
   = [Ok (VDoc [("inserted_id", VDate 1000 None)]); Err EDup].
 Proof. vm_compute. repeat split; reflexivity. Qed.
 
-(* 1 = what is left of it: a SUCCESSFUL insert_one of an _id that the normalisation changes
-   (sub-millisecond, or aware datetime) returns the normalised _id, which is not the _id as
-   given: the clause `inserted_id = the _id of the document` of the predicate is false.  The
-   library is consistent here (the id handed out is the id stored); it is the predicate that
-   compares with the raw _id instead of the normalised one. *)
-Example refuted_inserted_id_normalised :
-  refutes [OInsertOne (VDoc [("_id", VDate 1001 None)])] 1 /\
+(* WAS a counterexample, bit 1 (what was left of it): a SUCCESSFUL insert_one of an _id that
+   the normalisation changes (sub-millisecond, or aware datetime) returns the normalised _id,
+   which is not the _id as given.  The library is consistent here (the id handed out is the id
+   stored); the predicate now compares inserted_id with the normalised _id (patch i), so it
+   holds, and bit 1 was removed from the guard altogether. *)
+Example inserted_id_normalised_now_holds :
+  now_holds [OInsertOne (VDoc [("_id", VDate 1001 None)])] /\
   model_obs false empty_coll [OInsertOne (VDoc [("_id", VDate 1001 None)])] =
   [(Ok (VDoc [("inserted_id", VDate 1000 None)]),
     [(VDate 1000 None, VDoc [("_id", VDate 1000 None)])],
     VDoc [("_id_", VDoc [("key", VArr [VArr [VStr "_id"; VInt 1]]); ("v", VInt 2)])])].
 Proof. vm_compute. repeat split; reflexivity. Qed.
 
-Example refuted_inserted_id_aware :
-  refutes [OInsertOne (VDoc [("_id", VDate 0 (Some 0))])] 1.
+Example inserted_id_aware_now_holds :
+  now_holds [OInsertOne (VDoc [("_id", VDate 0 (Some 0))])].
 Proof. vm_compute. repeat split; reflexivity. Qed.
 
 (* 8 = F-ID-BOOL-NUM (the C01 finding F-BOOL-NUM seen through C05): True == 1 in the matcher,
